@@ -39,6 +39,11 @@ class Deadlock(SimError):
     pass
 
 
+class SimUnsupported(SimError):
+    """the program under test used a part of the MPI interface that this simulation does not model:
+    the run carries no verdict (harnesses report it as inconclusive, never as a violation)"""
+
+
 class WatchdogTimeout(SimError):
     pass
 
@@ -736,6 +741,119 @@ class Comm:
             return {r: None for r in d}
         self._coll("Scatter", {"root": root}, (s, r_, sc), fin)
 
+    def Allgatherv(self, sendbuf, recvbuf):
+        size = self.Get_size()
+        s = _parse_buf(sendbuf)
+        r_ = _parse_buf(recvbuf, writable=True)
+        if r_.counts is None:
+            c = _blocks(r_.count, size, "Allgatherv recv")
+            r_.counts = [c] * size
+            r_.displs = [c * i for i in range(size)]
+        if len(r_.counts) != size or len(r_.displs) != size:
+            raise ValueError("Allgatherv: counts/displs must have one entry per rank")
+        if np.shares_memory(s.u8, r_.u8) and s.count and r_.u8.size:
+            raise CollectiveMismatch("Allgatherv: send and receive buffers overlap (forbidden by MPI)")
+
+        def fin(ent):
+            d = dict(ent)
+            for p, (sp, _rp) in d.items():
+                nb = sp.count * sp.datatype.extent
+                for q, (_sq, rq) in d.items():
+                    _same_sig("Allgatherv", p, sp.count, sp.datatype, q, rq.counts[p], rq.datatype)
+                    lo = rq.displs[p] * rq.datatype.extent
+                    if lo + nb > rq.u8.size:
+                        raise CollectiveMismatch("Allgatherv: block of rank %d exceeds the receive buffer of rank %d" % (p, q))
+                    rq.u8[lo:lo + nb] = sp.u8[:nb]
+            return {r: None for r in d}
+        self._coll("Allgatherv", {}, (s, r_), fin)
+
+    def Alltoallv(self, sendbuf, recvbuf):
+        size = self.Get_size()
+        s = _parse_buf(sendbuf)
+        r_ = _parse_buf(recvbuf, writable=True)
+        for b_, what in ((s, "send"), (r_, "recv")):
+            if b_.counts is None:
+                c = _blocks(b_.count, size, "Alltoallv " + what)
+                b_.counts = [c] * size
+                b_.displs = [c * i for i in range(size)]
+            if len(b_.counts) != size or len(b_.displs) != size:
+                raise ValueError("Alltoallv: counts/displs must have one entry per rank")
+
+        def fin(ent):
+            d = dict(ent)
+            for p, (sp, _rp) in d.items():
+                es = sp.datatype.extent
+                for q, (_sq, rq) in d.items():
+                    _same_sig("Alltoallv", p, sp.counts[q], sp.datatype, q, rq.counts[p], rq.datatype)
+                    nb = sp.counts[q] * es
+                    a = sp.displs[q] * es
+                    lo = rq.displs[p] * rq.datatype.extent
+                    if lo + nb > rq.u8.size or a + nb > sp.u8.size:
+                        raise CollectiveMismatch("Alltoallv: block %d->%d exceeds a buffer" % (p, q))
+                    rq.u8[lo:lo + nb] = sp.u8[a:a + nb]
+            return {r: None for r in d}
+        self._coll("Alltoallv", {}, (s, r_), fin)
+
+    def Scatterv(self, sendbuf, recvbuf, root=0):
+        size = self.Get_size()
+        me = self.Get_rank()
+        s = _parse_buf(sendbuf) if me == root else None
+        r_ = _parse_buf(recvbuf, writable=True)
+        if s is not None:
+            if s.counts is None:
+                c = _blocks(s.count, size, "Scatterv send")
+                s.counts = [c] * size
+                s.displs = [c * i for i in range(size)]
+            if len(s.counts) != size or len(s.displs) != size:
+                raise ValueError("Scatterv: counts/displs must have one entry per rank")
+
+        def fin(ent):
+            d = dict(ent)
+            sr, _rr = d[root]
+            es = sr.datatype.extent
+            for p, (_sp, rp) in d.items():
+                _same_sig("Scatterv", root, sr.counts[p], sr.datatype, p, rp.count, rp.datatype)
+                nb = sr.counts[p] * es
+                a = sr.displs[p] * es
+                rp.u8[:nb] = sr.u8[a:a + nb]
+            return {r: None for r in d}
+        self._coll("Scatterv", {"root": root}, (s, r_), fin)
+
+    # attribute caching (process-local, per communicator handle) ---------------------------------
+    _next_keyval = [1000]
+
+    @classmethod
+    def Create_keyval(cls, copy_fn=None, delete_fn=None, nopython=False):
+        cls._next_keyval[0] += 1
+        return cls._next_keyval[0]
+
+    @classmethod
+    def Free_keyval(cls, keyval):
+        return KEYVAL_INVALID
+
+    def _attrs(self):
+        h = self._resolve()
+        if h._sh is None:
+            raise Exception_("MPI_ERR_COMM: invalid communicator")
+        # one table per rank and communicator (the handle objects of one rank on one communicator may differ)
+        tab = h._sh.__dict__.setdefault("_attr_tables", {})
+        return tab.setdefault(h._rk, {})
+
+    def Get_attr(self, keyval):
+        return self._attrs().get(keyval)
+
+    def Set_attr(self, keyval, attrval):
+        self._attrs()[keyval] = attrval
+
+    def Delete_attr(self, keyval):
+        self._attrs().pop(keyval, None)
+
+    def __getattr__(self, name):
+        # only reached for names that are not defined: parts of the mpi4py interface this simulation does not model
+        if name.startswith("_"):
+            raise AttributeError(name)
+        raise SimUnsupported("simulated MPI does not implement Comm.%s" % name)
+
     # communicator constructors --------------------------------------------------------------------
     def Dup(self):
         h = self._resolve()
@@ -930,6 +1048,7 @@ class _SelfProxy(Intracomm):
 COMM_WORLD = _WorldProxy()
 COMM_SELF = _SelfProxy()
 COMM_NULL = Comm(None, None, None)
+KEYVAL_INVALID = -1
 
 
 def current_world():
